@@ -660,7 +660,10 @@ def run_fn(pre, bam, li, locus, field, cfg, select, col, err, phred, found):
                 continue
             recs = [a for a, _, _ in pre.cand[(bam, li)] if a["qname"] == name]
             mine = [a for a in recs if rg2s.get(a["rg"]) == key]
-            if mine:
+            abut = [a for a, _ in pre.near[(bam, li)] if a["qname"] == name and rg2s.get(a["rg"]) == key and passes(a, cfg)]
+            if abut:
+                found.append(("non-overlapping-read-used", "%s: read %s only abuts the locus (reference span %s) but is in the result for sample %s" % (where, name, D.ref_span(abut[0]), key)))
+            elif mine:
                 mech = why_excluded(mine[0], cfg) or "filtered-read-used"
                 found.append((mech, "%s: read %s (flag %d, MAPQ %d) is in the result for sample %s but the cascade excludes it" % (where, name, mine[0]["flag"], mine[0]["mapq"], key)))
             elif recs:
@@ -1240,10 +1243,18 @@ def run_dataset_case(tier, seed, shard, index, col, workname):
 
 
 def run_shard(tier, seed, spec, col):
-    for i in range(spec["datasets"]):
-        run_dataset_case(tier, seed, spec["shard"], i, col, "c06-%s-%s" % (tier, spec["name"]))
+    work = "c06-%s-%s" % (tier, spec["name"])
+    try:
+        for i in range(spec["datasets"]):
+            run_dataset_case(tier, seed, spec["shard"], i, col, work)
+    finally:
+        shutil.rmtree(env.workdir(work), ignore_errors=True)
 
 
 def replay(obj, col):
     c = obj["case"]
-    run_dataset_case(c.get("tier", obj.get("tier", "quick")), int(c.get("seed", obj.get("seed", 0))), int(c["shard"]), int(c["index"]), col, "c06-replay-%d" % os.getpid())
+    work = "c06-replay-%d" % os.getpid()
+    try:
+        run_dataset_case(c.get("tier", obj.get("tier", "quick")), int(c.get("seed", obj.get("seed", 0))), int(c["shard"]), int(c["index"]), col, work)
+    finally:
+        shutil.rmtree(env.workdir(work), ignore_errors=True)
